@@ -571,7 +571,7 @@ func (w *specWalk) connectFlags(e *layoutEvent) {
 // the specification gives to the flags of those names.
 func checkFlagConstants(p *Prog, c *Check) {
 	n := 0
-	for _, tab := range []map[string]int64{specConnectFlags, specSubOptions} {
+	for _, tab := range []map[string]int64{specConnectFlags, specSubOptions, specConnAckFlags} {
 		var names []string
 		for k := range tab {
 			names = append(names, k)
